@@ -26,10 +26,13 @@ AllowedKey(k) == k.t \in Ints \cup {"str", "char", "bool"}
 \* ---- sample values per type (first = the representative used inside containers)
 RECURSIVE Vals(_)
 First(ty) == Vals(ty)[1]
+Second(ty) == IF Len(Vals(ty)) >= 2 THEN Vals(ty)[2] ELSE Vals(ty)[1]
 IntV(w, v) == [k |-> "int", w |-> w, v |-> v]
 Vals(ty) ==
   CASE ty.t = "bool" -> <<[k |-> "bool", v |-> TRUE], [k |-> "bool", v |-> FALSE]>>
-    [] ty.t \in Ints -> <<IntV(ty.t, "max"), IntV(ty.t, "min")>>
+    \* (signed widths also -1: two negative values, so that a map keyed by them has an order among negatives)
+    [] ty.t \in Ints -> IF ty.t \in {"i8", "i16", "i32", "i64", "i128"} THEN <<IntV(ty.t, "max"), IntV(ty.t, "min"), IntV(ty.t, "m1")>>
+                                                                       ELSE <<IntV(ty.t, "max"), IntV(ty.t, "min")>>
     [] ty.t = "f64" -> <<[k |-> "f64", v |-> "0.5"], [k |-> "f64", v |-> "-2.25"], [k |-> "f64", v |-> "1e19"], [k |-> "f64", v |-> "-0.0"]>>
     [] ty.t = "f32" -> <<[k |-> "f32", v |-> "0.5"]>>
     [] ty.t = "char" -> <<[k |-> "char", v |-> "c1"], [k |-> "char", v |-> "c2"]>>
@@ -39,7 +42,9 @@ Vals(ty) ==
     [] ty.t = "seq" -> <<[k |-> "seq", v |-> Vals(ty.a)], [k |-> "seq", v |-> <<>>]>>
     [] ty.t = "tuple" -> <<[k |-> "tuple", v |-> [i \in 1..Len(ty.ts) |-> First(ty.ts[i])]]>>
     [] ty.t = "map" -> <<[k |-> "map", v |-> [i \in 1..Len(Vals(ty.k)) |-> <<Vals(ty.k)[i], First(ty.v)>>]], [k |-> "map", v |-> <<>>]>>
-    [] ty.t = "struct" -> <<[k |-> "struct", name |-> ty.name, v |-> [i \in 1..Len(ty.fs) |-> <<ty.fs[i][1], First(ty.fs[i][2])>>]]>>
+    \* (a struct with the first value of every field, and one with the second: an absent option, an empty sequence ...)
+    [] ty.t = "struct" -> <<[k |-> "struct", name |-> ty.name, v |-> [i \in 1..Len(ty.fs) |-> <<ty.fs[i][1], First(ty.fs[i][2])>>]],
+                            [k |-> "struct", name |-> ty.name, v |-> [i \in 1..Len(ty.fs) |-> <<ty.fs[i][1], Second(ty.fs[i][2])>>]]>>
     [] ty.t = "newtype" -> <<[k |-> "newtype", name |-> ty.name, v |-> First(ty.a)]>>
     [] ty.t = "enum" ->
          [i \in 1..Len(ty.vs) |->
